@@ -93,6 +93,8 @@ type Interp struct {
 	errType  types.Type
 	sink     *Sink
 	onceInit map[*Value]bool
+	lastFn    *ssa.Function
+	lastInstr ssa.Instruction
 }
 
 type undo struct {
@@ -553,6 +555,7 @@ func (in *Interp) callPkgFunc(caller *frame, pkgPath, name string, args ...Value
 
 func (in *Interp) step(fr *frame, instr ssa.Instruction) {
 	in.fnCount[fr.fn]++
+	in.lastFn, in.lastInstr = fr.fn, instr
 	if in.p != nil && in.initing == 0 {
 		in.p.steps++
 		if in.p.steps > in.cfg.MaxSteps {
@@ -601,7 +604,15 @@ func (in *Interp) visitInstr(fr *frame, instr ssa.Instruction) continuation {
 	case *ssa.MakeInterface:
 		fr.env[instr] = Iface{T: instr.X.Type(), V: fr.get(instr.X)}
 	case *ssa.Extract:
-		fr.env[instr] = fr.get(instr.Tuple).(Tuple)[instr.Index]
+		tv := fr.get(instr.Tuple)
+		if p, isP := tv.(Poison); isP {
+			if fr.tolerant {
+				fr.env[instr] = p
+				break
+			}
+			unsupported("use of poisoned value: %s", p.Why)
+		}
+		fr.env[instr] = tv.(Tuple)[instr.Index]
 	case *ssa.Slice:
 		fr.env[instr] = in.slice(fr, instr)
 	case *ssa.Return:
@@ -1418,7 +1429,11 @@ func (p *pathState) finish(in *Interp, r any) {
 	case pathEnd:
 		p.end = e
 	case Unsupported:
-		p.end = pathEnd{kind: "unsupported", msg: e.Msg}
+		msg := e.Msg
+		if in.lastFn != nil && in.lastInstr != nil {
+			msg += " [in " + in.lastFn.String() + " at " + in.posStr(in.lastInstr.Pos()) + "]"
+		}
+		p.end = pathEnd{kind: "unsupported", msg: msg}
 	case goPanic:
 		p.end = pathEnd{kind: "panic", msg: e.msg + " @" + in.posStr(e.pos)}
 	default:
